@@ -92,22 +92,24 @@ impl<S: SelfEmulation> Accumulator<S> {
         let process_msm = |msm: Vec<(&CommitmentLabel, &S::F, &S::C)>| {
             let mut bases = Vec::with_capacity(msm.len());
             let mut scalars = Vec::with_capacity(msm.len());
-            let mut fixed_base_scalars = BTreeMap::new();
+            // A fixed base may occur several times (e.g. in a batch of guards under the same
+            // verifying key): its scalars add up.
+            let mut fixed_base_scalars: BTreeMap<String, S::F> = BTreeMap::new();
             for (label, scalar, base) in msm {
                 match label {
                     CommitmentLabel::Fixed(i) => {
                         let name = fixed_commitment_name(prefix, *i);
                         assert_eq!(fixed_bases.get(&name), Some(base));
-                        fixed_base_scalars.insert(name, *scalar);
+                        *fixed_base_scalars.entry(name).or_insert(S::F::ZERO) += *scalar;
                     }
                     CommitmentLabel::Permutation(i) => {
                         let name = perm_commitment_name(prefix, *i);
                         assert_eq!(fixed_bases.get(&name), Some(base));
-                        fixed_base_scalars.insert(name, *scalar);
+                        *fixed_base_scalars.entry(name).or_insert(S::F::ZERO) += *scalar;
                     }
                     CommitmentLabel::Custom(s) if s == "-G" => {
                         assert_eq!(fixed_bases.get(s), Some(base));
-                        fixed_base_scalars.insert("-G".into(), *scalar);
+                        *fixed_base_scalars.entry("-G".into()).or_insert(S::F::ZERO) += *scalar;
                     }
                     _ => {
                         bases.push(*base);
